@@ -66,7 +66,7 @@ class ConvertTask(FragmentTask):
         ids, args = v.get("state_bin_box_ids"), v.get("mp_args")
         ok = isinstance(ids, list) and len(ids) == 1 and isinstance(args, list) and len(args) == 1 and isinstance(args[0], list) \
             and len(args[0]) == 11
-        ctx.oblige("post.one-task-and-one-id-list-appended", ok, "P")
+        ctx.structure("post.one-task-and-one-id-list-appended", ok)
         if not ok:
             return
         from pyvc.ops import as_ndarray
